@@ -250,15 +250,19 @@ def liveness_check(binary, workdir, tier):
     rc, o, _ = run([binary, "genesis", "--cfg", json.dumps(MC_CFG), "--out", os.path.join(workdir, "genesis.json")])
     if rc != 0:
         raise MachineryError("genesis failed: " + o[-1000:])
-    cfgfile = "Live_quick.cfg" if tier == "quick" else "Live.cfg"
-    rc, out, wall = tlc(workdir, "Live.tla", cfgfile, workers=6, timeout=600 if tier == "quick" else 3000, heap="8g")
-    open(os.path.join(workdir, "tlc.live.out"), "w").write(out)
-    m = None
-    for m in TLC_STATS.finditer(out):
-        pass
-    res = {"property": "EventuallySettled == <>[]AllSettled under WF(TickStep)", "config": cfgfile, "states": int(m.group(2)) if m else 0,
-           "generated": int(m.group(1)) if m else 0, "wall_s": round(wall, 1),
-           "holds": "Model checking completed. No error has been found." in out, "violated": "Temporal properties were violated" in out}
+    cfgs = ["Live_quick.cfg"] if tier == "quick" else ["Live.cfg", "Live_actions.cfg", "Live_upd.cfg"]
+    runs = []
+    for cfgfile in cfgs:
+        rc, out, wall = tlc(workdir, "Live.tla", cfgfile, workers=6, timeout=600 if tier == "quick" else 3000, heap="8g")
+        open(os.path.join(workdir, "tlc.live.%s.out" % cfgfile), "w").write(out)
+        m = None
+        for m in TLC_STATS.finditer(out):
+            pass
+        runs.append({"config": cfgfile, "states": int(m.group(2)) if m else 0, "generated": int(m.group(1)) if m else 0, "wall_s": round(wall, 1),
+                     "holds": "Model checking completed. No error has been found." in out, "violated": "Temporal properties" in out and "violated" in out})
+    res = {"properties": "EventuallySettled == <>[]AllSettled, EventuallyGone == <>[]AllGone, under WF(TickStep) only", "runs": runs,
+           "states": sum(r["states"] for r in runs), "holds": all(r["holds"] for r in runs), "violated": any(r["violated"] for r in runs),
+           "incomplete": [r["config"] for r in runs if not r["holds"] and not r["violated"]]}
     # vacuity witness: the same model with the safety version of the goal as invariant must fail at once
     wit = open(os.path.join(workdir, "Live_quick.cfg")).read().replace("PROPERTY EventuallySettled", "INVARIANT AllSettled")
     open(os.path.join(workdir, "Live_witness.cfg"), "w").write(wit)
@@ -613,7 +617,7 @@ def run_property(pid, tier, seed, use_cache=True):
         if pid == "C12" and (val.get("liveness") or {}).get("violated"):
             # the DESIGN admits an order that is never settled: a finding about the specification, to be looked at by hand; only
             # states observed on the real code are verdicts
-            raise MachineryError("spec/Live.tla: TLC reports a counterexample to EventuallySettled (see %s/live/tlc.live.out)" % fam["dir"])
+            raise MachineryError("spec/Live.tla: TLC reports a counterexample to EventuallySettled (see %s/live/tlc.live.*.out)" % fam["dir"])
         mc = val.get("mc") or {"states": 0, "generated": 0}
         fams = val.get("mc_families") or {}
         mstates = mc["states"] + sum(r["states"] for r in fams.values())
